@@ -27,6 +27,9 @@ def effects(f, R):
         base = {'op': op, 'block': s['block'], 'span': s['span']}
         # motif[(i, idx(seq[lo + i]))] op= 1   for i in 0..hi-lo
         b = m(('at', '$arr', ('call~', 'MatrixCoordinates::new', ('$i', ('call~', 'as_index', (('at', '$seq', '$j'),))))), tg)
+        if b is None:
+            # the same cell written as motif[i][idx(..)] (indexing by MatrixCoordinates is normalised to two-level indexing)
+            b = m(('at', ('at', '$arr', '$i'), ('call~', 'as_index', (('at', '$seq', '$j'),))), tg)
         if b is not None and rhs == ('k', 1) and iteralg.is_pos(b['$i']):
             L = b['$i'][1]
             ext = CA.extents.get(L, [])
